@@ -166,7 +166,12 @@ def execute(script):
                     res.bump('delivered_novalidation')
                     validated = False
                 if cm is not None:
-                    cm.set_coinstate(cs, validated=validated)
+                    try:
+                        cm.set_coinstate(cs, validated=validated)
+                    except Exception as e2:
+                        res.violate(PROP, 'C03/installing-state-raised', 'receiver %d: installing the state after an arrival in the '
+                                    'node\'s chain manager raised %s' % (rn, type(e2).__name__))
+                        break
                     cs = cm.coinstate            # what the node reports
                     if cs.current_chain_hash != head_before and b.header.summary.previous_block_hash != head_before:
                         res.bump('probe:served_state_reorganised')
